@@ -25,7 +25,7 @@ const (
 	objBase   = uint64(0xc000000000)
 	objShift  = 24
 	tokenBase = uint64(0xa000000000)
-	tokenStep = uint64(0x100)
+	tokenStep = uint64(0x30) // like real type descriptors: at least 48 bytes apart
 	closBase  = uint64(0xb000000000)
 	mapBase   = uint64(0xb800000000)
 	itabBase  = uint64(0xa800000000)
